@@ -51,6 +51,8 @@ class StepRecord:
         fx = ops.fixed_sites if ops.fix_psi else np.array([], dtype=np.int64)
         self.fixed = np.array(fx, dtype=np.int64)
         self.gamma, self.u = float(solver.gamma), float(solver.u)
+        tp = solver.options.terminal_psi
+        self.repin = complex(tp) if tp else None
         self.rhs = (ops.divergence @ (self.Js - self.dAdt)) - (ops.mu_boundary_laplacian @ self.muB)
         self.solve_residual = float(np.max(np.abs(ops.mu_laplacian @ self.mu_out - self.rhs)))
         self.rhs_scale = float(np.max(np.abs(ops.mu_laplacian) @ np.abs(self.mu_out)) + 1e-300)
@@ -69,7 +71,8 @@ def model_text(rec: StepRecord, rows=None) -> str:
     t += f"Definition muB := {coq_list([flit(x) for x in rec.muB])}.\n" if len(rec.muB) else "Definition muB : list float := [].\n"
     t += f"Definition dAdt := {coq_list([flit(x) for x in rec.dAdt])}.\n"
     t += f"Definition fixed : list nat := {coq_list([str(int(f)) + '%nat' for f in rec.fixed], per_line=12)}.\n"
-    t += (f"Definition res := step OpsF a nsites es fixed (fun _ => fnth mu1) (cnth Ut) U (cnth psi0) (fnth eps0)\n"
+    repin = "None" if rec.repin is None else f"(Some {clit(rec.repin)})"
+    t += (f"Definition res := step OpsF a nsites es fixed (fun _ => fnth mu1) (cnth Ut) {repin} U (cnth psi0) (fnth eps0)\n"
           f"  {flit(rec.gamma)} {flit(rec.u)} {flit(rec.dt)} (fnth muB) (fnth dAdt).\n")
     t += ("Eval vm_compute in match res with None => [] | Some o => map (so_psi _ o) (seq 0 nsites) end.\n"
           f"Eval vm_compute in match res with None => [] | Some o => map (ob_Js _ (so_obs _ o)) (seq 0 {E}) end.\n"
